@@ -29,7 +29,7 @@ PLAN = {
     "thorough": {"shards": 8, "shard_timeout": 3600, "case_timeout": 90, "seq": 600000, "runs": 60000, "par": 6000, "max_case_timeouts": 10},
 }
 THRESHOLDS = {
-    "quick": {"individuals_checked": 5000, "sequential_calls": 600, "multi_objective_calls": 200, "representations": 300, "shared_problem_cases": 100, "runs": 70, "parallel_calls": 40, "parallel_individuals": 150, "set:completion_orders": 5, "parallel_with_evaluated_members": 10, "parallel_batches_with_duplicates": 8, "runs_with_selection_after_variation": 30},
+    "quick": {"individuals_checked": 5000, "sequential_calls": 600, "multi_objective_calls": 200, "representations": 300, "shared_problem_cases": 100, "runs": 70, "parallel_calls": 40, "parallel_individuals": 150, "set:completion_orders": 5, "parallel_with_evaluated_members": 10, "parallel_batches_with_duplicates": 8, "runs_with_selection_after_variation": 30, "multi_returns:reused-list": 50, "multi_returns:tuple": 50},
     "thorough": {"individuals_checked": 120000, "parallel_calls": 600, "set:completion_orders": 40},
 }
 
@@ -59,6 +59,23 @@ def logged_fitness_multi(p):
     return [v, float((h >> 5) % 7), float((h >> 9) % 3)]
 
 
+BUFFER = [0.0, 0.0, 0.0]
+
+
+def logged_fitness_multi_buffer(p):
+    """A fitness function that fills and returns ONE preallocated list (a common allocation-saving habit): what it
+    returned for a program is what the list held when it returned."""
+    BUFFER[:] = logged_fitness_multi(p)
+    return BUFFER
+
+
+def logged_fitness_multi_tuple(p):
+    return tuple(logged_fitness_multi(p))
+
+
+MULTI_FORMS = {"fresh-list": logged_fitness_multi, "reused-list": logged_fitness_multi_buffer, "tuple": logged_fitness_multi_tuple}
+
+
 def pure_single(p):
     return float(evo.stable_hash(evo.text(p)) % 13)
 
@@ -83,9 +100,9 @@ def gen_cases(tier, seed):
     rng = pyrandom.Random(f"c13-{seed}")
     plan = PLAN[tier]
     for i in range(plan["seq"]):
-        yield {"kind": "seq", "n": rng.choice([1, 1, 2, 3, 5, 8]), "pre": rng.random(), "dups": rng.random() < 0.3, "multi": rng.random() < 0.4, "minimize": rng.random() < 0.5, "mins": [rng.random() < 0.5 for _ in range(3)], "bool_min": rng.random() < 0.3, "second": rng.random() < 0.3, "repr": rng.choice(["tree", "ge", "sge"]), "seed": rng.randrange(10**6)}
+        yield {"kind": "seq", "n": rng.choice([1, 1, 2, 3, 5, 8]), "pre": rng.random(), "dups": rng.random() < 0.3, "multi": rng.random() < 0.4, "minimize": rng.random() < 0.5, "mins": [rng.random() < 0.5 for _ in range(3)], "bool_min": rng.random() < 0.3, "second": rng.random() < 0.3, "returns": rng.choice(["fresh-list", "reused-list", "tuple"]), "repr": rng.choice(["tree", "ge", "sge"]), "seed": rng.randrange(10**6)}
     for i in range(plan["runs"]):
-        yield {"kind": "run", "alg": rng.choice(["gp", "gp", "hc"]), "step": rng.choice(["default", "default", "mut-then-tournament", "mut-then-elitism", "mut-then-evaluate"]), "pop": rng.choice([2, 3, 5, 8]), "budget": rng.randint(5, 40), "multi": rng.random() < 0.3, "minimize": rng.random() < 0.5, "repr": rng.choice(["tree", "ge"]), "seed": rng.randrange(10**6)}
+        yield {"kind": "run", "alg": rng.choice(["gp", "gp", "hc"]), "step": rng.choice(["default", "default", "mut-then-tournament", "mut-then-elitism", "mut-then-evaluate"]), "pop": rng.choice([2, 3, 5, 8]), "budget": rng.randint(5, 40), "multi": rng.random() < 0.3, "returns": rng.choice(["fresh-list", "reused-list", "tuple"]), "minimize": rng.random() < 0.5, "repr": rng.choice(["tree", "ge"]), "seed": rng.randrange(10**6)}
     for i in range(plan["par"]):
         yield {"kind": "par", "n": rng.choice([1, 2, 3, 4, 6, 8]), "pre": rng.choice([0.0, 0.0, 0.3, 0.6]), "dups": rng.random() < 0.4, "multi": rng.random() < 0.3, "minimize": rng.random() < 0.5, "repr": rng.choice(["tree", "ge"]), "seed": rng.randrange(10**6)}
 
@@ -157,9 +174,11 @@ def run_seq(case, rec):
     inds = evo.individuals(rep, src, case["n"])
     if len(inds) < case["n"]:
         return
-    prob, mins = make_problem(case, logged_fitness, logged_fitness_multi)
+    prob, mins = make_problem(case, logged_fitness, MULTI_FORMS[case.get("returns", "fresh-list")])
     ev = SequentialEvaluator()
-    wit = {k: case[k] for k in ("n", "multi", "minimize", "repr", "dups", "second")}
+    wit = {k: case.get(k) for k in ("n", "multi", "minimize", "repr", "dups", "second", "returns")}
+    if case["multi"]:
+        rec.count(f"multi_returns:{case.get('returns', 'fresh-list')}")
     pre = [i for i in inds if rng.random() < case["pre"]]
     ev.evaluate(prob, pre)
     pop = list(inds)
@@ -227,7 +246,7 @@ def run_run(case, rec):
     def multi(p):
         seen[id(p)] = seen.get(id(p), 0) + 1
         keep.append(p)
-        return logged_fitness_multi(p)
+        return MULTI_FORMS[case.get("returns", "fresh-list")](p)
 
     c = dict(case, mins=[case["minimize"], not case["minimize"], case["minimize"]])
     if case["alg"] == "hc":
